@@ -128,6 +128,15 @@ class Fn:
         self.mi_level_names = {}  # python variable -> (name of level 0, name of level 1)
         self.fresh = 0
         self.pending = []        # raising sub-expressions hoisted in front of the statement
+        self.suffix = ""         # appended to the locals of an inlined helper (no capture)
+        self.frames = []         # return frames of the helpers being inlined
+        self.inlined = 0
+
+    def lname(self, n):
+        return cname(n) + self.suffix
+
+    def raising(self):
+        return self.frames[-1]["raising"] if self.frames else bool(self.cfg.get("raises"))
 
     # ------------------------------------------------------------------------------ expressions
     def expr(self, e, env):
@@ -156,8 +165,11 @@ class Fn:
         """expression as a run-time value: static ints / bools are materialised; a raising
         sub-expression is bound in front of the enclosing statement"""
         t, ty = self.expr(e, env)
+        return self.finish(t, ty, e, allow_res)
+
+    def finish(self, t, ty, e, allow_res=False):
         if is_res(ty) and not allow_res:
-            need(self.cfg.get("raises") and self.pending is not None,
+            need(self.raising() and self.pending is not None,
                  "raising call inside an expression", e)
             v = "r%d_" % self.fresh
             self.fresh += 1
@@ -281,8 +293,26 @@ class Fn:
         raise Unsupported("unary operator", e)
 
     def e_BoolOp(self, e, env):
-        parts = [self.expr(v, env) for v in e.values]
         isand = isinstance(e.op, ast.And)
+        v0 = e.values[0]
+        if len(e.values) >= 2 and isinstance(v0, ast.Compare) and len(v0.ops) == 1 \
+                and isinstance(v0.left, ast.Name) and v0.left.id in env \
+                and env[v0.left.id][1] in ("onames", "olevel") \
+                and isinstance(v0.ops[0], ast.IsNot if isand else ast.Is) \
+                and isinstance(v0.comparators[0], ast.Constant) and v0.comparators[0].value is None \
+                and any(isinstance(n, ast.Name) and n.id == v0.left.id
+                        for w in e.values[1:] for n in ast.walk(w)):
+            # the remaining operands are evaluated only when the argument is not None
+            _, _, e_some, _, _ = self.branches(("none", v0.left.id, False), env)
+            rest = e.values[1:]
+            sub = ast.BoolOp(op=e.op, values=rest) if len(rest) > 1 else rest[0]
+            t, ty = self.expr(sub, e_some)
+            if is_static(ty):
+                t, ty = self.finish(t, ty, e)
+            need(ty == "bool", "boolean operator on %r" % (ty,), e)
+            return "(match %s with Some %s => %s | None => %s end)" % (
+                env[v0.left.id][0], self.lname(v0.left.id), t, "false" if isand else "true"), "bool"
+        parts = [self.expr(v, env) for v in e.values]
         dyn = []
         for t, ty in parts:
             if is_static(ty):
@@ -337,12 +367,23 @@ class Fn:
         raise Unsupported("comparison of %r and %r" % (ta, tb), e)
 
     def e_IfExp(self, e, env):
+        cnd = self.cond(e.test, env)
+        if cnd[0] == "none":
+            h1, h2, e1, e2, end = self.branches(cnd, env)
+            a, ta = self.val(e.body, e1)
+            b, tb = self.val(e.orelse, e2)
+            need(ta == tb, "conditional expression of types %r / %r" % (ta, tb), e)
+            return "(%s %s %s %s%s)" % (h1, a, h2, b, end), ta
         c, tc = self.expr(e.test, env)
         if is_static(tc):
             return self.expr(e.body if tc[1] else e.orelse, env)
         need(tc == "bool", "conditional expression test", e)
         a, ta = self.val(e.body, env)
         b, tb = self.val(e.orelse, env)
+        if {ta, tb} == {"arr1", "ser1"}:         # either kind of 1-D container: a cell
+            a = "(mk_cell %s %s)" % ("KArray" if ta == "arr1" else "KSeries", a)
+            b = "(mk_cell %s %s)" % ("KArray" if tb == "arr1" else "KSeries", b)
+            ta = tb = "ncell"
         if {ta, tb} == {"ncell", "ser1"}:        # a cell known to be a Series, used as a Series
             a = a if ta == "ser1" else "(cell_values %s)" % a
             b = b if tb == "ser1" else "(cell_values %s)" % b
@@ -397,13 +438,13 @@ class Fn:
         """pattern text and extended env for a loop / comprehension target of element type ty"""
         env = dict(env)
         if isinstance(tgt, ast.Name):
-            env[tgt.id] = (cname(tgt.id), ty)
-            return cname(tgt.id), env
+            env[tgt.id] = (self.lname(tgt.id), ty)
+            return self.lname(tgt.id), env
         if isinstance(tgt, ast.Tuple) and isinstance(ty, tuple) and ty[0] == "tuple" \
                 and len(tgt.elts) == len(ty[1]) and all(isinstance(x, ast.Name) for x in tgt.elts):
             for x, t in zip(tgt.elts, ty[1]):
-                env[x.id] = (cname(x.id), t)
-            return "'(%s)" % ", ".join(cname(x.id) for x in tgt.elts), env
+                env[x.id] = (self.lname(x.id), t)
+            return "'(%s)" % ", ".join(self.lname(x.id) for x in tgt.elts), env
         raise Unsupported("loop target %s over elements of type %r" % (u(tgt), ty))
 
     def iterable(self, e, env):
@@ -418,12 +459,34 @@ class Fn:
             return t, ty[1]
         raise Unsupported("iteration over a value of type %r" % (ty,), e)
 
+    def e_GeneratorExp(self, e, env):
+        need(len(e.generators) == 1 and not e.generators[0].ifs
+             and not e.generators[0].is_async, "generator shape", e)
+        g = e.generators[0]
+        it, ety = self.iterable(g.iter, env)
+        pat, env2 = self.bind_target(g.target, ety, env)
+        saved, self.pending = self.pending, None
+        b, tb = self.expr(e.elt, env2)
+        self.pending = saved
+        need(not is_res(tb), "raising generator element", e)
+        return None, ("gen", pat, it, b, tb)
+
     def e_ListComp(self, e, env):
         need(len(e.generators) == 1 and not e.generators[0].ifs
              and not e.generators[0].is_async, "comprehension shape", e)
         g = e.generators[0]
-        it, ety = self.iterable(g.iter, env)
-        pat, env2 = self.bind_target(g.target, ety, env)
+        gt = self.expr(g.iter, env)[1] if isinstance(g.iter, ast.Name) else None
+        if isinstance(gt, tuple) and gt[0] == "gen":
+            # [f(s) for s in (h(i) for i in it)]  ==  [f(h(i)) for i in it]; a generator is
+            # exhausted by its first consumer
+            need(isinstance(g.target, ast.Name), "target of a comprehension over a generator", e)
+            env[g.iter.id] = (None, ("consumed generator",))
+            _, pat, it, gb, gtb = gt
+            env2 = dict(env)
+            env2[g.target.id] = (gb, gtb)
+        else:
+            it, ety = self.iterable(g.iter, env)
+            pat, env2 = self.bind_target(g.target, ety, env)
         saved, self.pending = self.pending, None      # nothing may be hoisted out of the body
         b, tb = self.val(e.elt, env2, allow_res=True)
         self.pending = saved
@@ -480,6 +543,8 @@ class Fn:
         # --- translated functions of the same module
         if isinstance(f, ast.Name) and f.id in BY_PY:
             return self.call_translated(e, BY_PY[f.id], env)
+        if isinstance(f, ast.Name) and f.id in self.cfg.get("module", {}) and f.id not in env:
+            return self.inline(e, self.cfg["module"][f.id], env)
         # --- container(...) : np.array / pd.Series chosen at run time
         if isinstance(f, ast.Name) and f.id in env and env[f.id][1] == "kind":
             need(len(e.args) == 1, "container call arity", e)
@@ -586,6 +651,42 @@ class Fn:
         if isinstance(f, ast.Attribute):
             return self.method(e, env)
         raise Unsupported("call of " + src, e)
+
+    def inline(self, e, fn, env):
+        """a call of another function of the module: its body, translated in place with the
+        parameters bound to the (translated) arguments; locals get a fresh suffix"""
+        need(len(self.frames) < 4, "helper calls nested too deeply", e)
+        a = fn.args
+        need(not a.vararg and not a.kwarg and not a.kwonlyargs and not a.posonlyargs,
+             "signature of helper " + fn.name, e)
+        pnames = [x.arg for x in a.args]
+        args = self.call_args(e, pnames)
+        defaults = dict(zip(pnames[len(pnames) - len(a.defaults):], a.defaults))
+        env2 = {}
+        for p_ in pnames:
+            if p_ in args:
+                t0, ty0 = self.expr(args[p_], env)
+                env2[p_] = (t0, ty0) if is_static(ty0) else self.finish(t0, ty0, args[p_])
+            else:
+                need(p_ in defaults, "missing argument %s of %s" % (p_, fn.name), e)
+                env2[p_] = self.expr(defaults[p_], {})
+        self.inlined += 1
+        frame = {"raising": self.has_raise(fn.body), "type": None, "name": fn.name}
+        need(not frame["raising"] or self.raising(), "raising helper in a total function", e)
+        saved = (self.suffix, self.ignore, self.pending)
+        self.suffix, self.ignore, self.pending = "_h%d" % self.inlined, set(), []
+        self.frames.append(frame)
+
+        def fell_off(_env):
+            raise Unsupported("helper %s can fall off its end" % fn.name)
+        try:
+            text = self.seq(list(fn.body), env2, fell_off, 0)
+        finally:
+            self.frames.pop()
+            self.suffix, self.ignore, self.pending = saved
+        need(frame["type"] is not None, "helper %s returns nothing" % fn.name, e)
+        text = "(%s)" % " ".join(text.split())
+        return text, (("res", frame["type"]) if frame["raising"] else frame["type"])
 
     def isinstance_(self, e, env):
         need(len(e.args) == 2 and not e.keywords, "isinstance arity", e)
@@ -706,11 +807,11 @@ class Fn:
             need(len(lam.args.args) == 1 and not lam.args.defaults, "lambda shape", e)
             x = lam.args.args[0].arg
             env2 = dict(env)
-            env2[x] = (cname(x), ("list", "ncell"))
+            env2[x] = (self.lname(x), ("list", "ncell"))
             saved, self.pending = self.pending, None
             b, tb = self.val(lam.body, env2)
             self.pending = saved
-            return "(map (fun %s => %s) %s)" % (cname(x), b, t), ("list", tb)
+            return "(map (fun %s => %s) %s)" % (self.lname(x), b, t), ("list", tb)
         if m == "to_numpy" and not A and not kw:
             if isinstance(ty, tuple) and ty[0] == "list":
                 return t, ty                    # Series of arrays -> object array of arrays
@@ -827,6 +928,25 @@ class Fn:
             return False
         return not any(isinstance(n, (ast.Return, ast.Raise)) for n in ast.walk(st))
 
+    @staticmethod
+    def merge_appends(st):
+        """`if c: x.append(a) else: x.append(b)` is `x.append(a if c else b)`"""
+        def app(b):
+            if len(b) == 1 and isinstance(b[0], ast.Expr) and isinstance(b[0].value, ast.Call) \
+                    and isinstance(b[0].value.func, ast.Attribute) \
+                    and b[0].value.func.attr == "append" \
+                    and isinstance(b[0].value.func.value, ast.Name) \
+                    and len(b[0].value.args) == 1 and not b[0].value.keywords:
+                return b[0].value.func.value.id, b[0].value.args[0]
+            return None
+        x, y = app(st.body), app(st.orelse)
+        if x and y and x[0] == y[0]:
+            call = ast.Call(func=ast.Attribute(value=ast.Name(id=x[0], ctx=ast.Load()),
+                                               attr="append", ctx=ast.Load()),
+                            args=[ast.IfExp(test=st.test, body=x[1], orelse=y[1])], keywords=[])
+            return ast.copy_location(ast.Expr(value=call), st)
+        return st
+
     def labels_only_rename(self, st, env):
         """`if <test on label variables>: x = x.rename(columns=<labels>)` (or rename_axis(index=))
         on a long table / multi-index frame: changes labels the Coq containers do not carry"""
@@ -850,7 +970,7 @@ class Fn:
     def ret(self, t, ty, node):
         want = self.cfg["ret"]
         if is_res(ty):
-            need(self.cfg.get("raises"), "raising call in a total function", node)
+            need(self.raising(), "raising call in a total function", node)
             if ty[1] == want or (isinstance(ty[1], tuple) and ty[1][0] in ("mi_levels", "mi_names")
                                  and want == "mi"):
                 return t
@@ -862,8 +982,8 @@ class Fn:
 
     def tuple_pat(self, names):
         if len(names) == 1:
-            return cname(names[0])
-        return "'(%s)" % ", ".join(cname(n) for n in names)
+            return self.lname(names[0])
+        return "'(%s)" % ", ".join(self.lname(n) for n in names)
 
     def tuple_val(self, names, env):
         if len(names) == 1:
@@ -895,14 +1015,24 @@ class Fn:
         if isinstance(st, ast.Return):
             need(not rest, "statements after return", st)
             need(st.value is not None, "bare return", st)
+            if self.frames:
+                fr = self.frames[-1]
+                t, ty = self.val(st.value, env)
+                if ty in (("list", "ncell"), ("list", "arr1"), ("list", "ser1")):
+                    t, ty = self.coerce(t, ty, "ncells", "returned list of cells"), "ncells"
+                need(fr["type"] in (None, ty), "helper %s returns %r and %r"
+                     % (fr["name"], fr["type"], ty), st)
+                coqty(ty)
+                fr["type"] = ty
+                return pad + (("Ok %s" % t) if fr["raising"] else t)
             t, ty = self.val(st.value, env, allow_res=True)
             return pad + self.ret(t, ty, st)
         if isinstance(st, ast.Raise):
             need(not rest, "statements after raise", st)
-            need(self.cfg.get("raises"), "raise in a total function", st)
+            need(self.raising(), "raise in a total function", st)
             return pad + "Err"
         if isinstance(st, ast.Assert):
-            need(self.cfg.get("raises"), "assert in a total function", st)
+            need(self.raising(), "assert in a total function", st)
             c = self.boolean(st.test, env)
             return "%sif negb %s then Err else\n%s" % (pad, c, go(env))
         if isinstance(st, ast.Try):
@@ -925,11 +1055,16 @@ class Fn:
             t, ty = self.val(st.value.args[0], env)
             need(env[d][1][1] in ("?", ty), "append of %r to a list of %r" % (ty, env[d][1][1]), st)
             env = dict(env)
-            env[d] = (env[d][0], ("list", ty))
-            return "%slet %s := (%s ++ [%s]) in\n%s" % (pad, env[d][0], env[d][0], t, go(env))
+            old_text = env[d][0]
+            env[d] = (self.lname(d), ("list", ty))
+            return "%slet %s := (%s ++ [%s]) in\n%s" % (pad, self.lname(d), old_text, t, go(env))
         if isinstance(st, ast.Assign):
             need(len(st.targets) == 1, "chained assignment", st)
             return self.assign(st.targets[0], st.value, env, go, ind, st)
+        if isinstance(st, ast.If):
+            st = self.merge_appends(st)
+        if isinstance(st, ast.Expr) and isinstance(st.value, ast.Call) and st is not stmts[0]:
+            return self.seq1([st] + rest, env, k, ind)
         if isinstance(st, ast.If):
             return self.if_(st, rest, env, k, ind)
         if isinstance(st, ast.For):
@@ -939,14 +1074,21 @@ class Fn:
     def let(self, pat, t, ty, go, env, ind):
         pad = " " * ind
         if is_res(ty):
-            need(self.cfg.get("raises"), "raising call in a total function")
+            need(self.raising(), "raising call in a total function")
             return "%srbind %s (fun %s =>\n%s)" % (pad, t, pat, go(env))
         return "%slet %s := %s in\n%s" % (pad, pat, t, go(env))
 
     def assign(self, tg, value, env, go, ind, st):
         env = dict(env)
         if isinstance(tg, ast.Name):
-            t, ty = self.val(value, env, allow_res=True)
+            t0, ty0 = self.expr(value, env)
+            if is_static(ty0) or ty0 == ("list", "?") or (
+                    isinstance(ty0, tuple) and ty0[0] in (
+                        "gen", "xs", "locrow", "nested_col", "mi_col", "levelvals", "nlevelvals",
+                        "mi_index", "nested_index", "iloc", "loc", "shape_of")):
+                env[tg.id] = (t0, ty0)      # no let: the name stands for the value
+                return go(env)
+            t, ty = self.finish(t0, ty0, value, allow_res=True)
             inner = ty[1] if is_res(ty) else ty
             if isinstance(inner, tuple) and inner[0] == "mi_levels":
                 self.mi_levels[tg.id] = inner[1]
@@ -965,15 +1107,16 @@ class Fn:
             if inner != ("list", "?") and not (isinstance(inner, tuple)
                                                and inner[0] in ("index3", "series3")):
                 coqty(inner)        # must be a run-time type
-            env[tg.id] = (cname(tg.id), inner)
-            return self.let(cname(tg.id), t, ty, go, env, ind)
+            env[tg.id] = (self.lname(tg.id), inner)
+            return self.let(self.lname(tg.id), t, ty, go, env, ind)
         if isinstance(tg, ast.Tuple):
             t, ty = self.val(value, env)
             need(isinstance(ty, tuple) and ty[0] == "tuple" and len(ty[1]) == len(tg.elts)
                  and all(isinstance(x, ast.Name) for x in tg.elts), "tuple assignment", st)
             for x, xt in zip(tg.elts, ty[1]):
-                env[x.id] = (cname(x.id), xt)
-            return self.let("'(%s)" % ", ".join(cname(x.id) for x in tg.elts), t, ty, go, env, ind)
+                env[x.id] = (self.lname(x.id), xt)
+            return self.let("'(%s)" % ", ".join(self.lname(x.id) for x in tg.elts), t, ty, go, env,
+                            ind)
         if isinstance(tg, ast.Subscript) and isinstance(tg.value, ast.Name):
             d = tg.value.id
             need(d in env and env[d][1] == "dfb", "item assignment into %s" % d, st)
@@ -1026,7 +1169,7 @@ class Fn:
         if isinstance(test, ast.Compare) and len(test.ops) == 1 \
                 and isinstance(test.ops[0], (ast.Is, ast.IsNot)) \
                 and isinstance(test.left, ast.Name) and test.left.id in env \
-                and env[test.left.id][1] in ("onames", "olevel"):
+                and env[test.left.id][1] in ("onames", "olevel", "olabel"):
             return ("none", test.left.id, isinstance(test.ops[0], ast.Is))
         t, ty = self.expr(test, env)
         if is_static(ty):
@@ -1038,15 +1181,16 @@ class Fn:
     def branches(self, c, env):
         """[(header text, env)] for the true and the false branch"""
         if c[0] == "bool":
-            return "if %s then" % c[1], "else", env, env, ""
+            return "if %s then" % c[1], "else", dict(env), dict(env), ""
         v = c[1]
         vn, vty = env[v]
+        bn = self.lname(v)          # binder of the Some branch (vn may be an inlined argument)
         env_some = dict(env)
-        env_some[v] = (vn, {"onames": "names", "olevel": "nat"}[vty])
+        env_some[v] = (bn, {"onames": "names", "olevel": "nat", "olabel": "name"}[vty])
         none_first = c[2]
         if none_first:
-            return ("match %s with None =>" % vn, "| Some %s =>" % vn, env, env_some, " end")
-        return ("match %s with Some %s =>" % (vn, vn), "| None =>", env_some, env, " end")
+            return ("match %s with None =>" % vn, "| Some %s =>" % bn, dict(env), env_some, " end")
+        return ("match %s with Some %s =>" % (vn, bn), "| None =>", env_some, dict(env), " end")
 
     def if_(self, st, rest, env, k, ind):
         pad = " " * ind
@@ -1084,9 +1228,14 @@ class Fn:
         b2 = self.seq(orelse, e2, kk, ind + 2)
         env3 = dict(env)
         for n in names:
-            env3[n] = (cname(n), types[n])
+            env3[n] = (self.lname(n), types[n])
         pat = self.tuple_pat(names)
         tail = self.seq(rest, env3, k, ind)
+        if b1.strip() == b2.strip():
+            # both branches compute the same thing: the test does not matter
+            if raising:
+                return "%srbind (\n%s) (fun %s =>\n%s)" % (pad, b1, pat, tail)
+            return "%slet %s := (\n%s) in\n%s" % (pad, pat, b1, tail)
         if raising:
             return "%srbind (%s\n%s\n%s%s\n%s%s) (fun %s =>\n%s)" % (
                 pad, h1, b1, pad, h2, b2, end, pat, tail)
@@ -1095,12 +1244,44 @@ class Fn:
     def for_(self, st, env, go, ind):
         pad = " " * ind
         need(not st.orelse, "for-else", st)
-        need(not self.has_raise(st.body), "raise inside a loop", st)
+        sbody = list(st.body)
+        if isinstance(sbody[-1], ast.If):
+            sbody[-1] = self.merge_appends(sbody[-1])
+        need(not self.has_raise(sbody), "raise inside a loop", st)
         it, ety = self.iterable(st.iter, env)
         pat, env2 = self.bind_target(st.target, ety, env)
-        acc = [n for n in self.assigned(st.body) if n in env and n not in self.ignore]
+        acc = [n for n in self.assigned(sbody) if n in env and n not in self.ignore]
         need(acc, "loop without effect", st)
         types = {}
+        last = sbody[-1]
+        if len(acc) == 1 and env[acc[0]][1] == ("list", "?") and isinstance(last, ast.Expr) \
+                and isinstance(last.value, ast.Call) and isinstance(last.value.func, ast.Attribute) \
+                and last.value.func.attr == "append" and isinstance(last.value.func.value, ast.Name) \
+                and last.value.func.value.id == acc[0] and len(last.value.args) == 1 \
+                and not last.value.keywords and acc[0] not in self.assigned(sbody[:-1]) \
+                and not any(isinstance(n, ast.Name) and n.id == acc[0]
+                            for b in sbody[:-1] for n in ast.walk(b)) \
+                and not any(isinstance(n, ast.Name) and n.id == acc[0]
+                            for n in ast.walk(last.value.args[0])):
+            # `acc = []; for x in it: ...; acc.append(e)` is `acc = [e for x in it]`
+            a = acc[0]
+            ety2 = {}
+
+            def ke(env3):
+                saved, self.pending = self.pending, None
+                t, ty = self.val(last.value.args[0], env3)
+                self.pending = saved
+                ety2["ty"] = ty
+                return " " * (ind + 4) + t
+            body = self.seq(list(sbody[:-1]), env2, ke, ind + 4)
+            env4 = dict(env)
+            env4[a] = (env[a][0], ("list", ety2["ty"]))
+            env4[a] = (self.lname(a), ("list", ety2["ty"]))
+            return "%slet %s := (map (fun %s =>\n%s)\n%s  %s) in\n%s" % (
+                pad, self.lname(a), pat, body, pad, it, go(env4))
+
+        for n in acc:
+            env2[n] = (self.lname(n), env[n][1])    # inside the loop: the accumulator binder
 
         def kk(env3):
             for n in acc:
@@ -1108,11 +1289,11 @@ class Fn:
                 need(env3[n][1] == env[n][1] or env[n][1] == ("list", "?"),
                      "loop changes the type of %s" % n, st)
             return " " * (ind + 4) + self.tuple_val(acc, env3)
-        body = self.seq(list(st.body), env2, kk, ind + 4)
+        body = self.seq(list(sbody), env2, kk, ind + 4)
         apat = self.tuple_pat(acc)
         env4 = dict(env)
         for n in acc:
-            env4[n] = (env[n][0], types[n])
+            env4[n] = (self.lname(n), types[n])
         text = "%slet %s := fold_left (fun %s %s =>\n%s)\n%s  %s %s in\n" % (
             pad, apat, apat, pat, body, pad, it, self.tuple_val(acc, env))
         return text + go(env4)
@@ -1144,16 +1325,33 @@ class Fn:
 
 
 def default_level_names(fn_node):
-    """the literals from_nested_to_multi_index assigns to instance_index_name / time_index_name"""
+    """the level names from_nested_to_multi_index gives its result when instance_index /
+    time_index are None: the string that reaches instance_index_name / time_index_name on the
+    `<argument> is None` side (assignment under an if, or a conditional expression)"""
+    param = {"instance_index_name": "instance_index", "time_index_name": "time_index"}
+
+    def when_none(v, arg):
+        if isinstance(v, ast.Constant) and isinstance(v.value, str):
+            return [v.value]
+        if isinstance(v, ast.Name) and v.id == arg:
+            return []                   # the value on the `is not None` side
+        if isinstance(v, ast.IfExp) and isinstance(v.test, ast.Compare) and len(v.test.ops) == 1 \
+                and isinstance(v.test.left, ast.Name) and v.test.left.id == arg \
+                and isinstance(v.test.comparators[0], ast.Constant) \
+                and v.test.comparators[0].value is None:
+            if isinstance(v.test.ops[0], ast.Is):
+                return when_none(v.body, arg)
+            if isinstance(v.test.ops[0], ast.IsNot):
+                return when_none(v.orelse, arg)
+        raise Unsupported("level name given by " + u(v))
     out = {}
     for n in ast.walk(fn_node):
         if isinstance(n, ast.Assign) and len(n.targets) == 1 and isinstance(n.targets[0], ast.Name) \
-                and n.targets[0].id in ("instance_index_name", "time_index_name") \
-                and isinstance(n.value, ast.Constant) and isinstance(n.value.value, str):
-            need(n.targets[0].id not in out, "two default level names", n)
-            out[n.targets[0].id] = n.value.value
-    need(set(out) == {"instance_index_name", "time_index_name"}, "default level names not found")
-    return out["instance_index_name"], out["time_index_name"]
+                and n.targets[0].id in param:
+            out.setdefault(n.targets[0].id, []).extend(when_none(n.value, param[n.targets[0].id]))
+    need(set(out) == set(param) and all(len(v) == 1 for v in out.values()),
+         "default level names not found")
+    return out["instance_index_name"][0], out["time_index_name"][0]
 
 
 HEADER = """(* GENERATED by /verif/translator/panel_c15.py from %s -- do not edit, never committed *)
@@ -1174,6 +1372,7 @@ def translate(repo):
             raise Unsupported("missing function " + cfg["py"])
         cfg["node"] = top[cfg["py"]]
     for cfg in FUNCS:
+        cfg["module"] = top
         try:
             defs.append(Fn(cfg["node"], cfg, notes).translate())
         except Unsupported as ex:
